@@ -29,6 +29,7 @@
 From AV Require Import Base.Bytes Base.Outcome Hash.HashModel Tree.Heap Tree.Ops Tree.Script Tree.Inv Tree.InvProofs
   Tree.Index Tree.Refs Tree.IndexProofsBridge Tree.Follow Tree.FollowProofsRename Tree.FollowProofsMove
   Tree.FollowProofsContainer Tree.FollowProofsCross Tree.FollowProofsAll Tree.FollowWitness.
+From AV Require Import Spec.SpecReal Tree.CheckFn Tree.IndexProofsClosed Tree.FollowProofsReal.
 Open Scope list_scope.
 Open Scope N_scope.
 
@@ -252,3 +253,67 @@ Theorem C06_move_cross_example :
     Tiny.origins_list w' 0 = [] /\
     Tiny.origins_list w' 1 = [(BS "/p1", [12]); (BS "/p1/S", [13]); (BS "/p10_1", [14]); (BS "/p1/zzz", [15]); (BS "/q", [16])].
 Proof. exact move_cross_example. Qed.
+
+(* ====================================================================== the total case split *)
+
+(* [U] EVERY successful OpMove / OpMoveAt satisfies the clauses of its case (move_clauses = the conclusion of C06_move_ops:
+   same model + identifiable element - with a colliding name make_unique_item_name renames and the clauses hold, no side
+   condition; same model + container without collision; different models - no side condition) OR it is in the one
+   excluded class: a same-model move of a NON-identifiable container some of whose elements get a path that already exists
+   (finding C04-move-container-duplicates-paths; witness C06_container_collision_refuted: such a move succeeds, two
+   elements share one path, an unrelated reference is retargeted). *)
+Theorem C06_move_total :
+  forall (T : tables) (tab_el tab_en : nametab) (check_fn : N -> list N -> res bool) (LATEST : N)
+         (root_attrs : list (N * cdata)) (o : op) (w w' : world) (v : value) (h mv : id),
+  TablesOK T check_fn -> Inv06 T check_fn w ->
+  run_op T tab_el tab_en check_fn LATEST root_attrs o w = Val (OK v, w') ->
+  (o = OpMove h mv \/ exists pos, o = OpMoveAt h mv pos) ->
+  move_clauses T w w' h mv \/
+  (exists m, model_of h w = Val (OK m, w) /\ model_of mv w = Val (OK m, w) /\
+             identifiable T w mv = false /\ collision06 T w h mv = true).
+Proof. exact C06_move_total. Qed.
+
+(* [U]+[F] the same on the GENERATED tables (TablesOK RT: agent-c04's real_tables_ok), for the table-driven validator
+   model with any DFA tables *)
+Theorem C06_move_total_real :
+  forall (dfas : N -> option (list (list N) * list N)) (tab_el tab_en : nametab) (LATEST : N)
+         (root_attrs : list (N * cdata)) (o : op) (w w' : world) (v : value) (h mv : id),
+  Inv06 RT (check_fn_model dfas) w ->
+  run_op RT tab_el tab_en (check_fn_model dfas) LATEST root_attrs o w = Val (OK v, w') ->
+  (o = OpMove h mv \/ exists pos, o = OpMoveAt h mv pos) ->
+  move_clauses RT w w' h mv \/
+  (exists m, model_of h w = Val (OK m, w) /\ model_of mv w = Val (OK m, w) /\
+             identifiable RT w mv = false /\ collision06 RT w h mv = true).
+Proof. exact move_total_real. Qed.
+
+(* [U] histories with agent-c04's refined pending list (clean45m, Tree/IndexProofsClosed.v: the prefix may contain renames,
+   same-model moves of identifiable elements, remove_from_file, remove_file except of the last file; still excluded there:
+   copies, container / cross-model moves, removal of the last file, and the Known classes of C03/C04/C05) *)
+Theorem C06_history_m :
+  forall (T : tables) (tab_el tab_en : nametab) (check_fn : N -> list N -> res bool) (LATEST : N)
+         (root_attrs : list (N * cdata)),
+  TablesOK T check_fn ->
+  forall (l : list op) (w : world) (o : op) (v : value) (w' : world),
+  clean45m T tab_el tab_en check_fn LATEST root_attrs l empty_world = true ->
+  run_ops T tab_el tab_en check_fn LATEST root_attrs l empty_world = Val w ->
+  run_op T tab_el tab_en check_fn LATEST root_attrs o w = Val (OK v, w') ->
+  (forall h nn, o = OpSetItemName h nn -> rename_clauses T w w' h) /\
+  (forall h mv, (o = OpMove h mv \/ exists pos, o = OpMoveAt h mv pos) ->
+     move_clauses T w w' h mv \/
+     (exists m, model_of h w = Val (OK m, w) /\ model_of mv w = Val (OK m, w) /\
+                identifiable T w mv = false /\ collision06 T w h mv = true)).
+Proof. exact C06_history_m. Qed.
+
+(* the same on the generated tables *)
+Theorem C06_history_real :
+  forall (dfas : N -> option (list (list N) * list N)) (tab_el tab_en : nametab) (LATEST : N)
+         (root_attrs : list (N * cdata)) (l : list op) (w : world) (o : op) (v : value) (w' : world),
+  clean45m RT tab_el tab_en (check_fn_model dfas) LATEST root_attrs l empty_world = true ->
+  run_ops RT tab_el tab_en (check_fn_model dfas) LATEST root_attrs l empty_world = Val w ->
+  run_op RT tab_el tab_en (check_fn_model dfas) LATEST root_attrs o w = Val (OK v, w') ->
+  (forall h nn, o = OpSetItemName h nn -> rename_clauses RT w w' h) /\
+  (forall h mv, (o = OpMove h mv \/ exists pos, o = OpMoveAt h mv pos) ->
+     move_clauses RT w w' h mv \/
+     (exists m, model_of h w = Val (OK m, w) /\ model_of mv w = Val (OK m, w) /\
+                identifiable RT w mv = false /\ collision06 RT w h mv = true)).
+Proof. exact history_real. Qed.
